@@ -7,6 +7,8 @@ AllBodies == SUBSET {"command", "args", "env"}
 NoneAll   == {{}, {"command", "args", "env"}}
 AllKinds  == {"none", "http", "httphosts", "udp", "local", "two", "fan", "bare", "barehosts", "bareonly", "udp80", "as8080",
               "svcglobal", "rev", "mix"}
+\* documents the real Read must reject (conformance only)
+BadKinds  == {"badproto", "port0"}
 
 CpuM(m)   == [form |-> "m", milli |-> m]
 CpuDec(m) == [form |-> "dec", milli |-> m]
